@@ -33,6 +33,8 @@ def body(chk):
                         chk.identity('%s<%s>:eval_exact_t' % (name, scalar), le, T, [], key='%s:eval_exact_t' % name,
                                      replay=pde.make_replay(chk, v, 'eval_exact_t', args, le, T))
                         val.append((v, 'eval_exact_t', args, le))
+    import c09
+    c09.add_type_purity(chk, ['heateq_'])
     chk.solve_all()
     pde.validate_terms(chk, val, npoints=2 if chk.tier == 'quick' else 6)
 
